@@ -98,6 +98,7 @@ type loopInfo struct {
 }
 
 type funcTrans struct {
+	appendSites []token.Pos // append call sites by source position (for "callreq append#k")
 	retreqOK  map[int]int    // per retreq clause: number of return sites where it was evaluated
 	retreqErr map[int]string // last reason it was skipped
 	varargBefore map[ssa.Value]string // one-element varargs arrays: element heap symbol before the array was allocated
